@@ -226,6 +226,12 @@ def _run_shard(ctx: Ctx, acc: Acc):
         for comp in ("\\5c2a", "\\5c5c", "\\2a", "\\5c", "a\\5c2ab", "\\5C28", "\\5c\\32a"):
             for shape in ("(cn={c}*)", "(cn=*{c})", "(cn=a*{c})", "(cn={c}*b)", "(cn=a*{c}*b)", "(cn=*{c}*)", "(&(cn=a*{c})(sn=x))", "(cn={c})", "(cn>={c})"):
                 do("escape-shapes", shape.format(c=comp))
+        # a backslash followed by two characters that lenient hex converters take (bytes.fromhex skips blanks, int(x, 16)
+        # takes signs, underscores, blanks and non-ASCII digits): if accepted, the result must still parse back (round-18 change C15-21)
+        for pair in ("  ", "\t\t", " \t", "\n\n", "\r\n", "\x0b\x0c", "+1", "-1", " 1", "1 ", "0x", "0X", "_1", "1_", "\u0661\u0662", "\uff11\uff12", "\uff21\uff22", "a ", " a"):
+            for shape in ("(cn=\\{c}*)", "(cn=*\\{c})", "(cn=a*\\{c})", "(cn=\\{c}*b)", "(cn=a*\\{c}*b)", "(cn=*\\{c}*)", "(&(cn=a*\\{c}*)(sn=x))", "(cn=\\{c})", "(cn>=\\{c})", "(cn=x\\{c}y)", "(cn:=\\{c})",
+                          "(cn=\\{c}\\{c}*b)", "(cn=a*\\41\\{c})"):
+                do("escape-shapes", shape.format(c=pair))
     # substring items with hundreds of components (list positions beyond any small-number special case)
     if ctx.shard % 4 == 1:
         for k in (254, 255, 256, 257, 258, 259, 300, 1000):
